@@ -357,8 +357,33 @@ fn run_one(space: &Space, idx: u64, l: &mut Local) {
 
 // -------------------------------- in-process runner
 
+/// CPU time consumed so far by the calling thread, in milliseconds.
+fn thread_cpu_ms() -> u64 {
+    let mut ts = libc::timespec { tv_sec: 0, tv_nsec: 0 };
+    unsafe { libc::clock_gettime(libc::CLOCK_THREAD_CPUTIME_ID, &mut ts) };
+    ts.tv_sec as u64 * 1000 + ts.tv_nsec as u64 / 1_000_000
+}
+/// CPU time of another thread through its CPU-time clock id.
+fn clock_cpu_ms(clock: libc::clockid_t) -> Option<u64> {
+    let mut ts = libc::timespec { tv_sec: 0, tv_nsec: 0 };
+    if unsafe { libc::clock_gettime(clock, &mut ts) } != 0 {
+        return None;
+    }
+    Some(ts.tv_sec as u64 * 1000 + ts.tv_nsec as u64 / 1_000_000)
+}
+fn process_cpu_ms() -> u64 {
+    let mut ts = libc::timespec { tv_sec: 0, tv_nsec: 0 };
+    unsafe { libc::clock_gettime(libc::CLOCK_PROCESS_CPUTIME_ID, &mut ts) };
+    ts.tv_sec as u64 * 1000 + ts.tv_nsec as u64 / 1_000_000
+}
+/// A case is a hang when it has burnt its budget in CPU time (immune to machine load) or, as a
+/// backstop for a blocked thread, when 15x the budget has passed on the wall clock.
+const WALL_BACKSTOP: u64 = 15;
+
 struct Slot {
     start_ms: AtomicU64,
+    start_cpu_ms: AtomicU64,
+    cpu_clock: AtomicU64,
     idx: AtomicU64,
 }
 
@@ -366,7 +391,7 @@ fn run_inprocess(space: &Space, hang: &Mutex<Option<(String, u64)>>, on_hang: &d
     let n = ncpu().min(space.len.max(1) as usize);
     let chunk = if space.chunk > 0 { space.chunk } else { (space.len / (n as u64 * 16)).clamp(1, 4096) };
     let next = AtomicU64::new(0);
-    let slots: Vec<Slot> = (0..n).map(|_| Slot { start_ms: AtomicU64::new(0), idx: AtomicU64::new(0) }).collect();
+    let slots: Vec<Slot> = (0..n).map(|_| Slot { start_ms: AtomicU64::new(0), start_cpu_ms: AtomicU64::new(0), cpu_clock: AtomicU64::new(u64::MAX), idx: AtomicU64::new(0) }).collect();
     let done = AtomicBool::new(false);
     let mut total = Local::default();
     std::thread::scope(|s| {
@@ -377,7 +402,18 @@ fn run_inprocess(space: &Space, hang: &Mutex<Option<(String, u64)>>, on_hang: &d
                 let now = now_ms();
                 for sl in &slots {
                     let st = sl.start_ms.load(SeqCst);
-                    if st != 0 && now.saturating_sub(st) > space.wall_ms {
+                    if st == 0 {
+                        continue;
+                    }
+                    let clk = sl.cpu_clock.load(SeqCst);
+                    let cpu_used = if clk != u64::MAX { clock_cpu_ms(clk as libc::clockid_t).map(|c| c.saturating_sub(sl.start_cpu_ms.load(SeqCst))) } else { None };
+                    // re-read: the case may have ended (and another begun) while we looked at the clock
+                    if sl.start_ms.load(SeqCst) != st {
+                        continue;
+                    }
+                    let over_cpu = cpu_used.is_some_and(|c| c > space.wall_ms);
+                    let over_wall = now.saturating_sub(st) > space.wall_ms.saturating_mul(if cpu_used.is_some() { WALL_BACKSTOP } else { 1 });
+                    if over_cpu || over_wall {
                         *hang.lock().unwrap() = Some((space.name.clone(), sl.idx.load(SeqCst)));
                         done.store(true, SeqCst);
                         return;
@@ -394,6 +430,12 @@ fn run_inprocess(space: &Space, hang: &Mutex<Option<(String, u64)>>, on_hang: &d
                     .stack_size(64 << 20)
                     .spawn_scoped(s, move || {
                         let mut l = Local::default();
+                        {
+                            let mut clk: libc::clockid_t = 0;
+                            if unsafe { libc::pthread_getcpuclockid(libc::pthread_self(), &mut clk) } == 0 {
+                                slots[t].cpu_clock.store(clk as u64, SeqCst);
+                            }
+                        }
                         loop {
                             let lo = next.fetch_add(chunk, SeqCst);
                             if lo >= space.len || done.load(SeqCst) {
@@ -402,6 +444,7 @@ fn run_inprocess(space: &Space, hang: &Mutex<Option<(String, u64)>>, on_hang: &d
                             let hi = (lo + chunk).min(space.len);
                             for i in lo..hi {
                                 slots[t].idx.store(i, SeqCst);
+                                slots[t].start_cpu_ms.store(thread_cpu_ms(), SeqCst);
                                 slots[t].start_ms.store(now_ms(), SeqCst);
                                 run_one(space, i, &mut l);
                                 slots[t].start_ms.store(0, SeqCst);
@@ -458,13 +501,23 @@ fn worker_main(def: &CheckDef, space_name: &str) -> ! {
     let sb = space.sandbox.expect("sandbox cfg");
     crate::alloc::enable();
     static CASE_START: AtomicU64 = AtomicU64::new(0);
+    static CASE_START_CPU: AtomicU64 = AtomicU64::new(0);
     // the confirming re-run of a suspected hang gets a multiple of the budget (VERIF_WALL_SCALE)
     let scale: u64 = std::env::var("VERIF_WALL_SCALE").ok().and_then(|v| v.parse().ok()).unwrap_or(1);
     let wall = sb.wall_ms * scale.max(1);
     std::thread::spawn(move || loop {
         std::thread::sleep(Duration::from_millis(20));
         let st = CASE_START.load(SeqCst);
-        if st != 0 && now_ms().saturating_sub(st) > wall {
+        if st == 0 {
+            continue;
+        }
+        // CPU time of the whole worker since the case began (the watchdog itself sleeps): load-proof;
+        // the wall clock is only a backstop for a blocked case
+        let cpu = process_cpu_ms().saturating_sub(CASE_START_CPU.load(SeqCst));
+        if CASE_START.load(SeqCst) != st {
+            continue;
+        }
+        if cpu > wall || now_ms().saturating_sub(st) > wall.saturating_mul(WALL_BACKSTOP) {
             crate::alloc::die_status("HANG", crate::alloc::CUR_IDX.load(SeqCst), 0, 0, 3);
         }
     });
@@ -484,6 +537,7 @@ fn worker_main(def: &CheckDef, space_name: &str) -> ! {
                 let _ = out.flush();
             }
             crate::alloc::CUR_IDX.store(i, SeqCst);
+            CASE_START_CPU.store(process_cpu_ms(), SeqCst);
             CASE_START.store(now_ms(), SeqCst);
             run_one(space, i, &mut l);
             CASE_START.store(0, SeqCst);
